@@ -22,8 +22,8 @@ SetIsLocal == \A ts \in Batches : \A i \in 0..(Len(ts) - 1) : \A e \in Trees :
 (* the view-level operators used on traces agree with the data-level ones *)
 ViewAgrees == \A ts \in Batches : \A i \in 0..(Len(ts) - 1) : Slice(Stack(ts), i) = SliceData(StackData(ts), i)
 EqLaws == \A a, b \in Trees :
-            LET da == [k \in 1..2 |-> [shape |-> <<LeafSizes[k]>>, data |-> a[k]]]
-                db == [k \in 1..2 |-> [shape |-> <<LeafSizes[k]>>, data |-> b[k]]] IN
+            LET da == [k \in 1..2 |-> [shape |-> <<LeafSizes[k]>>, data |-> a[k], cls |-> "i", exact4 |-> TRUE, num4 |-> a[k]]]
+                db == [k \in 1..2 |-> [shape |-> <<LeafSizes[k]>>, data |-> b[k], cls |-> "i", exact4 |-> TRUE, num4 |-> b[k]]] IN
             /\ IsEqual(da, da) /\ (IsEqual(da, db) = IsEqual(db, da)) /\ (IsEqual(da, db) <=> a = b)
 Init == dummy = 0
 Next == UNCHANGED dummy
